@@ -155,14 +155,68 @@ def patch_lines():
     Lines.sym_next = lambda self, ev: self.nxt()
 
 
-def data_dependent_branches(f, allowed_names):
-    """branch conditions must mention only counters / line-kind tests, never parsed values"""
+COUNT_FIELDS = {"nv", "nq", "np", "nm", "na"}      # fields of the data record that hold counts (part of the record's interface)
+
+
+def data_dependent_branches(f, data_params=()):
+    """branch conditions may depend on line kinds (strings, pattern hits) and counts, never on parsed values: a forward taint
+    over the function and its nested helpers.  Sources: float()/complex() conversions, map(float, ...), numpy calls, and every
+    attribute of a data parameter other than the count fields; taint flows through assignments, loop and comprehension targets."""
+    tainted = set(data_params)
+
+    def is_data(e):
+        for x in ast.walk(e):
+            if isinstance(x, ast.Name) and x.id in tainted:
+                # a count field read off a data record is not a value
+                return True
+            if isinstance(x, ast.Call):
+                fn = src(x.func)
+                if fn in ("float", "complex") or fn.split(".")[0] in ("numpy", "np", "math"):
+                    return True
+                if fn == "map" and x.args and src(x.args[0]) in ("float", "complex"):
+                    return True
+        return False
+
+    def strip_counts(e):
+        """the expression with `<data>.n?` count reads removed (they do not carry values)"""
+        class T(ast.NodeTransformer):
+            def visit_Attribute(self, n):
+                if n.attr in COUNT_FIELDS:
+                    return ast.Constant(0)
+                return self.generic_visit(n)
+        import copy
+        return T().visit(copy.deepcopy(e))
+
+    def targets(t):
+        return {x.id for x in ast.walk(t) if isinstance(x, ast.Name)}
+
+    changed = True
+    while changed:
+        changed = False
+        for n in ast.walk(f):
+            new = set()
+            if isinstance(n, ast.Assign) and is_data(strip_counts(n.value)):
+                for t in n.targets:
+                    new |= targets(t)
+            elif isinstance(n, (ast.AnnAssign, ast.AugAssign)) and n.value is not None and is_data(strip_counts(n.value)):
+                new |= targets(n.target)
+            elif isinstance(n, (ast.For, ast.comprehension)) and is_data(strip_counts(n.iter)):
+                new |= targets(n.target)
+            elif isinstance(n, ast.NamedExpr) and is_data(strip_counts(n.value)):
+                new |= targets(n.target)
+            if not new <= tainted:
+                tainted |= new
+                changed = True
     bad = []
     for n in ast.walk(f):
-        if isinstance(n, (ast.If, ast.While)):
-            names = {x.id for x in ast.walk(n.test) if isinstance(x, ast.Name)}
-            if not names <= allowed_names:
-                bad.append(src(n.test)[:60])
+        tests = []
+        if isinstance(n, (ast.If, ast.While, ast.IfExp, ast.Assert)):
+            tests.append(n.test)
+        elif isinstance(n, ast.comprehension):
+            tests.extend(n.ifs)
+        for t in tests:
+            if is_data(strip_counts(t)):
+                bad.append(src(t)[:60])
     return bad
 
 
@@ -194,7 +248,7 @@ def r_energy(ctx, model):
                               "the records, loop counts, separators or the weight block)", key=f"energy.roundtrip.{label[:7]}")
     for ref in ("write_energy", "read_energy", "_read_volume_data", "_read_weights"):
         f = model.func(f"{QI}:{ref}")
-        bad = data_dependent_branches(f, {"line", "res", "nv", "nq", "np", "_", "lines", "fp", "True"})
+        bad = data_dependent_branches(f, data_params=[a.arg for a in f.args.args[1:2]] if ref == "write_energy" else ())
         ctx.check(not bad, f"{ref}: no branch on parsed values", model.where(f"{QI}:{ref}", f), expected="conditions on line kinds and counts only", found=str(bad),
                   explanation="the reader/writer branches on data values: agreement on reference data sets does not carry over", key=f"energy.{ref}.branches")
 
